@@ -108,6 +108,19 @@ type GhostField struct {
 	Alias    string // "pkgpath.Type.field" of the ghost field this one aliases
 }
 
+type GhostGlobal struct {
+	PkgPath string
+	Name    string
+	Type    ast.Expr
+}
+
+type MonitorSpec struct {
+	PkgPath  string
+	TypeName string
+	Lock     string   // field name of the mutex
+	Guards   []string // guarded field names
+}
+
 type GlobalSpec struct {
 	PkgPath   string
 	Name      string
@@ -122,12 +135,14 @@ type Specs struct {
 	Axioms     []*Axiom
 	Ghosts     map[string]*GhostField // key pkgpath.Type.field
 	Globals    map[string]*GlobalSpec
+	GGlobals   map[string]*GhostGlobal
+	Monitors   map[string]*MonitorSpec // key pkgpath.Type
 	Files      []string
 	TrustedTxt []string
 }
 
 func NewSpecs() *Specs {
-	return &Specs{Funcs: map[string]*FuncSpec{}, SpecFuncs: map[string]*SpecFunc{}, Ghosts: map[string]*GhostField{}, Globals: map[string]*GlobalSpec{}}
+	return &Specs{Funcs: map[string]*FuncSpec{}, SpecFuncs: map[string]*SpecFunc{}, Ghosts: map[string]*GhostField{}, Globals: map[string]*GlobalSpec{}, GGlobals: map[string]*GhostGlobal{}, Monitors: map[string]*MonitorSpec{}}
 }
 
 var clauseKeywords = map[string]bool{
@@ -135,7 +150,7 @@ var clauseKeywords = map[string]bool{
 	"inline": true, "pure": true, "requires": true, "ensures": true, "modifies": true, "panics": true,
 	"ghost": true, "loop": true, "invariant": true, "decreases": true, "unroll": true, "lemma": true,
 	"axiom": true, "package": true, "global": true, "trusted": true, "ghostfield": true, "opaque": true,
-	"timeout": true, "noframe": true, "end": true,
+	"timeout": true, "noframe": true, "end": true, "ghostglobal": true, "monitor": true,
 }
 
 type specLine struct {
@@ -573,6 +588,23 @@ func (sp *Specs) ParseSpecText(lines []specLine, file, pkgPath string) error {
 				return errf("bad ghost field type: %v", err)
 			}
 			sp.Ghosts[pkgPath+"."+tf[0]+"."+tf[1]] = &GhostField{PkgPath: pkgPath, TypeName: tf[0], Field: tf[1], Type: te, Alias: alias}
+		case "ghostglobal":
+			f := strings.Fields(s.rest)
+			if len(f) < 2 {
+				return errf("ghostglobal name type")
+			}
+			te, err := parser.ParseExpr(strings.Join(f[1:], " "))
+			if err != nil {
+				return errf("bad ghost global type: %v", err)
+			}
+			sp.GGlobals[pkgPath+"."+f[0]] = &GhostGlobal{PkgPath: pkgPath, Name: f[0], Type: te}
+		case "monitor":
+			// monitor Type lockfield guards f1 f2 ...
+			f := strings.Fields(s.rest)
+			if len(f) < 4 || f[2] != "guards" {
+				return errf("monitor Type lockfield guards f1 f2 ...")
+			}
+			sp.Monitors[pkgPath+"."+f[0]] = &MonitorSpec{PkgPath: pkgPath, TypeName: f[0], Lock: f[1], Guards: f[3:]}
 		case "global":
 			f := strings.Fields(s.rest)
 			g := &GlobalSpec{PkgPath: pkgPath, Name: f[0]}
